@@ -1,3 +1,4 @@
+use std::convert::TryFrom;
 use std::hash::{Hasher, Hash};
 use std::collections::{BTreeSet};
 use std::iter::FromIterator;
@@ -97,16 +98,13 @@ impl<'a, T: ColumnProvider> ExpressionExecutionEngine<'a, T> {
                     &right_value,
                     || Some(Value::Null),
                     |x, y| {
-                        Some(
-                            Value::Int(
-                                match operator {
-                                    ArithmeticOperator::Add => x + y,
-                                    ArithmeticOperator::Subtract => x - y,
-                                    ArithmeticOperator::Multiply => x * y,
-                                    ArithmeticOperator::Divide => x / y
-                                }
-                            )
-                        )
+                        // Overflow and division by zero have no value (=> error), they never wrap or panic
+                        match operator {
+                            ArithmeticOperator::Add => x.checked_add(y),
+                            ArithmeticOperator::Subtract => x.checked_sub(y),
+                            ArithmeticOperator::Multiply => x.checked_mul(y),
+                            ArithmeticOperator::Divide => x.checked_div(y)
+                        }.map(|value| Value::Int(value))
                     },
                     |x, y| {
                         Some(
@@ -148,7 +146,7 @@ impl<'a, T: ColumnProvider> ExpressionExecutionEngine<'a, T> {
                     || Some(Value::Null),
                     |x| {
                         match operator {
-                            UnaryArithmeticOperator::Negative => Some(-x),
+                            UnaryArithmeticOperator::Negative => x.checked_neg(),
                             UnaryArithmeticOperator::Invert => None
                         }
                     },
@@ -233,7 +231,7 @@ impl<'a, T: ColumnProvider> ExpressionExecutionEngine<'a, T> {
 
                         arg.map(
                             || Some(Value::Null),
-                            |x| Some(x.abs()),
+                            |x| x.checked_abs(),
                             |x| Some(x.abs()),
                             |_| None,
                             |_| None,
@@ -265,7 +263,7 @@ impl<'a, T: ColumnProvider> ExpressionExecutionEngine<'a, T> {
                             || Some(Value::Null),
                             |x, y| {
                                 if y >= 0 {
-                                    Some(Value::Int(x.pow(y as u32)))
+                                    u32::try_from(y).ok().and_then(|y| x.checked_pow(y)).map(|value| Value::Int(value))
                                 } else {
                                     None
                                 }
